@@ -225,7 +225,10 @@ def run(chk):
                   f"mapping entry is {' | '.join(terms)}; CiA 301: index << 16 | subindex << 8 | length")
     read = repo.func(B, "PdoMap.read", "C09.R2")
     fr = ff_for(chk, read, "C09.R2")
-    want = {"index": ["value >> 16"], "subindex": ["value >> 8 & 255", "(value >> 8) & 255"], "size": ["value & 127", "value & 255"]}
+    wv = [n.targets[0].id for n in own_nodes(read.node) if isinstance(n, ast.Assign) and isinstance(n.targets[0], ast.Name) and isinstance(n.value, ast.Call)
+          and dotted(n.value.func) == "_raw_from" and "map_array" in src(n.value) and any(isinstance(l, ast.For) and any(x is n for x in ast.walk(l)) for l in own_nodes(read.node))]
+    wv = wv[0] if wv else "value"          # the local holding the mapping word, whatever it is called
+    want = {"index": [f"{wv} >> 16"], "subindex": [f"{wv} >> 8 & 255", f"({wv} >> 8) & 255"], "size": [f"{wv} & 127", f"{wv} & 255"]}
     for nm, forms in want.items():
         sts = [n for n in own_nodes(read.node) if isinstance(n, ast.Assign) and isinstance(n.targets[0], ast.Name) and n.targets[0].id == nm]
         plain_r = [s for s in sts if not any("curtis_hack" in src(e) and p for e, p in fr.facts_at(s))]
@@ -234,15 +237,8 @@ def run(chk):
             got = fr.norm(s.value, subst=False)
             chk.check(fr.is_form(s.value, *forms), "R2", f"{B}:PdoMap.read | mapping field {nm}", read.loc(s),
                       f"{nm} decoded as {got}; save() encodes index<<16 | sub<<8 | length")
-    for attr, forms in (("cob_id", {"cob_id & 536870911"}), ("enabled", {f"cob_id & {1 << 31} == 0"}), ("rtr_allowed", {f"cob_id & {1 << 30} == 0"})):
-        sts = attr_stores(read.node, attr)
-        chk.floor("R2", len(sts), 1, f"store of {attr} in read")
-        for s in sts:
-            got = fr.norm(s.value, subst=False)
-            chk.check(fr.is_form(s.value, *forms), "R2", f"{B}:PdoMap.read | {attr}", read.loc(s), f"self.{attr} = {got}; expected {sorted(forms)[0]}")
-    cob_src = fr.one_def("cob_id")
-    chk.check(cob_src is not None and src(cob_src) == "_raw_from(self.com_record[1])", "R2", f"{B}:PdoMap.read | COB-ID source", read.loc(),
-              f"cob_id read from {src(cob_src) if cob_src is not None else '?'}")
+    from . import shared as _sh
+    _sh.cob_id_fields(chk, "R2")
 
     from . import shared
     shared.read_mapping_loop(chk, "R2")
